@@ -10,7 +10,7 @@ cd "$REPO" || exit 2
   --deselect tests/http/proxy/test_http2.py \
   --deselect tests/test_grout.py \
   --deselect tests/test_main.py::TestProxyContextManager \
-  --junitxml="$OUT" >/tmp/stable.log 2>&1
+  --junitxml="$OUT" >"$OUT.log" 2>&1
 /venv/bin/python - "$OUT" "$REPO" <<'EOF'
 import json, sys, xml.etree.ElementTree as ET
 b = json.load(open('/root/.vp/BASELINE.json'))
@@ -32,5 +32,5 @@ for m in missing:
 sys.exit(1 if missing else 0)
 EOF
 rc=$?
-rm -f "$OUT"
+rm -f "$OUT" "$OUT.log"
 exit $rc
